@@ -890,7 +890,10 @@ func (bi *BasmInstance) CodeChoice(rSize uint8, i int, sh string) error {
 					if prog, err := myArch.Assembler([]byte(prog)); err == nil {
 						tempCP.Program = prog
 					} else {
-						return err
+						// The alternative cannot be assembled on its own processor (for example an
+						// immediate that does not fit the instruction): it is not eligible
+						params[ii*len(ramAlts)+jj].wordSize = 1024
+						continue
 					}
 
 					romAltContrib = len(bi.sections[romAlt].sectionBody.Lines)
